@@ -231,6 +231,29 @@ def run(ctx):
                 m = re.findall(r'(\w+(?:Error|Exception)[^\n]*)', r['out'] + r['err'])
                 ctx.violation('odd-banner/%s' % (m[-1].split(':')[0] if m else 'status%s' % r['rc']), 'identification string %r followed by a well-formed KEXINIT: exit status %r, report shown: %r: %s' % (
                     b, r['rc'], ok_rep, (r['out'] + r['err'])[-200:]), d)
+    # ---- well-formed but bulky KEXINITs: a name repeated hundreds of times, one very long name; the report stays proportional to what was sent ----
+    bulky = [('repeat-chacha', dict(enc=['chacha20-poly1305@openssh.com'] * 400, mac=['hmac-sha2-256'])),
+             ('repeat-cbc-etm', dict(enc=['aes128-cbc'] * 200 + ['aes256-ctr'], mac=['hmac-sha2-256-etm@openssh.com'] * 200)),
+             ('repeat-unknown', dict(enc=['made-up-cbc'] * 300, mac=['made-up-etm@openssh.com'] * 300))]
+
+    def do_bulky(z, c):
+        name, l = c
+        srv = P.new_ssh2_server(dict(banner=b'SSH-2.0-OpenSSH_8.9', kex=['curve25519-sha256'], key=['ssh-ed25519'], enc=l['enc'], mac=l['mac'], hostkeys={}), stall_limit=3.0)
+        try:
+            return [z.run(o + ['--skip-rate-test', '-t', str(TIMEOUT), '127.0.0.1:%d' % srv.port], timeout=60) for o in (['-n'], ['-j'])]
+        finally:
+            srv.shutdown()
+    with runner.Pool() as pool:
+        bres = pool.map(do_bulky, bulky)
+    for (name, l), rs in zip(bulky, bres):
+        sent = sum(len(x) + 1 for x in l['enc'] + l['mac'])
+        for o, r in zip(('text', 'json'), rs):
+            d = {'op': 'cli-bulky-kexinit', 'kind': name, 'view': o, 'names': len(l['enc']) + len(l['mac']), 'output_bytes': len(r['out'])}
+            if r['timed_out'] or r['rc'] not in (0, 2, 3):
+                ctx.violation('bulky-kexinit/status', '%s: status %r timed_out %r: %s' % (name, r['rc'], r['timed_out'], (r['out'] + r['err'])[-200:]), d)
+            elif len(r['out']) > 400 * sent + 20000:
+                ctx.violation('bulky-kexinit/report-size', '%s: a KEXINIT with %d bytes of names produced a %s report of %d bytes (more than 400 bytes per byte sent)' % (name, sent, o, len(r['out'])), d)
+    ctx.evaluations += 2 * len(bulky)
     # ---- correspondence of the handshake model: banner then packet bytes with faults, vs classify(read_packet) ----
     hs_cases = []
     base = P.kexinit(['curve25519-sha256'], ['ssh-ed25519'], ['aes128-ctr'], ['hmac-sha2-256'])
